@@ -1,4 +1,5 @@
 import Cuckoo.Model.Inv
+import Cuckoo.Model.Objects
 /-! K2 side of the driver: runs the executable model on the line protocol (DESIGN 4.2). -/
 namespace Driver
 open Cuckoo Cuckoo.Model
@@ -161,6 +162,31 @@ def modelLine (st : St) (ws : List String) : St × String :=
   | ["new", id, n] =>
     match id.toNat?, n.toNat? with
     | some id, some n => (putTab st id { t := Table.init c n }, "ok")
+    | _, _ => (st, "bad-op")
+  | ["copy", d, s_] =>
+    match d.toNat?, s_.toNat? with
+    | some d, some s_ =>
+      match st.tabs[s_]? with
+      | some (some e) => (putTab st d { t := e.t.copy }, "ok")
+      | _ => (st, "bad-table")
+    | _, _ => (st, "bad-op")
+  | ["move", d, s_] =>
+    match d.toNat?, s_.toNat? with
+    | some d, some s_ =>
+      match st.tabs[s_]? with
+      | some (some e) =>
+        let st := putTab st d { t := e.t }
+        ({ st with tabs := st.tabs.setIfInBounds s_ none }, "ok")
+      | _ => (st, "bad-table")
+    | _, _ => (st, "bad-op")
+  | ["swap", a, b] =>
+    match a.toNat?, b.toNat? with
+    | some a, some b =>
+      match st.tabs[a]?, st.tabs[b]? with
+      | some (some ea), some (some eb) =>
+        let (ta, tb) := swapTables ea.t eb.t
+        (putTab (putTab st a { t := ta }) b { t := tb }, "ok")
+      | _, _ => (st, "bad-table")
     | _, _ => (st, "bad-op")
   | [op, id, a] =>
     match id.toNat?, a.toNat? with
